@@ -151,6 +151,12 @@ fn iter_builders(r: &mut Rng, m: &Model, o: &mut CaseOut) {
         let _ = o.must_panic("AdjacencyMap::from(rows):outside-head-accepted", || format!("row {u} contains {far}, order {n}"), || AdjacencyMap::from(bad.clone()));
         let wbad: Vec<BTreeMap<usize, usize>> = bad.iter().map(|s| s.iter().map(|&v| (v, 1)).collect()).collect();
         let _ = o.must_panic("AdjacencyListWeighted::from(rows):outside-head-accepted", || format!("row {u} contains {far}"), || AdjacencyListWeighted::<usize>::from(wbad.clone()));
+        // a self-loop after some valid arcs: the constructor unwinds half-way through its input
+        let mut late = m.arc_list();
+        late.truncate(3);
+        late.push((u, u));
+        let _ = o.must_panic("AdjacencyMatrix::from(arcs):late-self-loop-accepted", || format!("{late:?}"), || AdjacencyMatrix::from(late.clone()));
+        let _ = o.must_panic("EdgeList::from(arcs):late-self-loop-accepted", || format!("{late:?}"), || EdgeList::from(late.clone()));
         let loopy = vec![(u, u)];
         let _ = o.must_panic("AdjacencyMatrix::from(arcs):self-loop-accepted", || format!("{loopy:?}"), || AdjacencyMatrix::from(loopy.clone()));
         let _ = o.must_panic("EdgeList::from(arcs):self-loop-accepted", || format!("{loopy:?}"), || EdgeList::from(loopy.clone()));
